@@ -8,7 +8,7 @@ from ..cfg import build_cfg, calls_in, node_calls
 from ..core import Ctx, property_info, rule
 from ..exc import FuncExc, MayRaise, _handler_types
 from ..model import AnalysisError, FuncInfo, norm_text, walk_no_nested
-from ..q import A, is_self_attr, self_attr_writes, unparse
+from ..q import A, control_deps, is_self_attr, self_attr_writes, stores, unparse
 
 P = "xsdata.formats.dataclass.parsers"
 DOCUMENTED = {"ParserError", "ConverterError", "XmlContextError", "XmlHandlerError"}
@@ -224,25 +224,23 @@ def shape_validation(ctx: Ctx) -> None:
                     ctx.ob(f"{m.name}: {callee.name}({a.arg}={unparse(arg)}) receives a verified dict", why is not None, at=m, node=c,
                            msg=f"{unparse(arg)} is passed as a dict without an isinstance check on any path")
     # str-key subscripts on document values: only where find_var verified the nested dict (the wrapper-key branch)
+    from ..q import L, dep_texts
+
     bd = ctx.repo.func(f"{P}.dict:DictDecoder.bind_dataclass")
-    g = build_cfg(bd.node)
     for node in walk_no_nested(bd.node):
-        if isinstance(node, ast.Subscript) and isinstance(node.ctx, ast.Load) and unparse(node.value) == "value" and "local_name" in unparse(node.slice):
+        if isinstance(node, ast.Subscript) and isinstance(node.ctx, ast.Load) and L(bd, node.slice) == "_.local_name" and isinstance(node.value, ast.Name):
             n_sites += 1
-            cn = g.node_of(node)
-            guards = [t for t in g.nodes if t.kind == "test" and isinstance(t.ast, ast.Compare) and isinstance(t.ast.ops[0], ast.Eq) and {unparse(t.ast.left), unparse(t.ast.comparators[0])} == {"key", "var.wrapper"}]
-            ctx.ob("bind_dataclass: value[var.local_name] only when the matched key is the wrapper (the find_var branch that verified the nested dict)", cn is not None and any(g.only_if(cn.id, t.id, True) for t in guards), at=bd, node=node,
-                   msg="a field with a wrapper that was matched by its own name carries a list / scalar: subscripting it with a str raises TypeError")
+            deps = dep_texts(bd, node, True)
+            ctx.ob("bind_dataclass: value[var.local_name] only when the matched key is the wrapper (the find_var branch that verified the nested dict)", bool({"_==_.wrapper", "_.wrapper==_"} & deps), at=bd, node=node,
+                   construct="wrapper unwrap guard", msg="a field with a wrapper that was matched by its own name carries a list / scalar: subscripting it with a str raises TypeError")
     fv = ctx.repo.func(f"{P}.dict:DictDecoder.find_var")
-    gv = build_cfg(fv.node)
     for node in walk_no_nested(fv.node):
-        if isinstance(node, ast.Subscript) and isinstance(node.ctx, ast.Load) and unparse(node.value) == "value" and "local_name" in unparse(node.slice):
+        if isinstance(node, ast.Subscript) and isinstance(node.ctx, ast.Load) and L(fv, node.slice) == "_.local_name" and isinstance(node.value, ast.Name):
             n_sites += 1
-            cn = gv.node_of(node)
-            inst = [t for t in gv.nodes if t.kind == "test" and A(unparse(t.ast)) == A("isinstance(value, dict)")]
-            memb = [t for t in gv.nodes if t.kind == "test" and A(unparse(t.ast)) == A("var.local_name in value")]
-            ok = cn is not None and any(gv.only_if(cn.id, t.id, True) for t in inst) and any(gv.only_if(cn.id, t.id, True) for t in memb)
-            ctx.ob("find_var: value[var.local_name] only after isinstance(value, dict) and var.local_name in value", ok, at=fv, node=node, msg="unverified nested lookup")
+            deps = dep_texts(fv, node, True)
+            # the subscript may itself sit inside the last conjunct of the guarding condition: then the earlier conjuncts guard it
+            ok = "isinstance(_,dict)" in deps and "_.local_namein_" in deps
+            ctx.ob("find_var: value[var.local_name] only after isinstance(value, dict) and var.local_name in value", ok, at=fv, node=node, construct="nested lookup guard", msg="unverified nested lookup")
     ctx.floor("dict-shape use sites in the decoder", n_sites, 12)
     ctx.note("C15.R4 self-guarding", {k: sorted(v) for k, v in self_guarding.items()})
     # dict(value) for attribute maps
@@ -370,26 +368,30 @@ def sibling_fallbacks(ctx: Ctx) -> None:
     prim = ctx.repo.func(f"{P}.nodes.primitive:PrimitiveNode.bind")
     std = ctx.repo.func(f"{P}.nodes.standard:StandardNode.bind")
 
-    def fallback(fi: FuncInfo):
-        for n in walk_no_nested(fi.node):
-            if isinstance(n, ast.If) and "obj is None" in unparse(n.test) and "nillable" in unparse(n.test):
-                for st in n.body:
-                    if isinstance(st, ast.Assign) and unparse(st.targets[0]) == "obj":
-                        return n, st.value
-        return None, None
+    def empties(fi: FuncInfo) -> dict[object, set[tuple[str, bool]]]:
+        """Empty str / bytes constants assigned to a local in the function, with the conditions under which each is chosen."""
+        g = build_cfg(fi.node)
+        out: dict[object, set[tuple[str, bool]]] = {}
+        for st, tgt, v in stores(fi.node):
+            if isinstance(tgt, ast.Name) and isinstance(v, ast.Constant) and v.value in ("", b""):
+                n = g.node_of(st)
+                if n is not None:
+                    out.setdefault(v.value, set()).update((t, pol) for t, pol, _ in control_deps(fi, n))
+        return out
 
-    pn, pv = fallback(prim)
-    sn, sv = fallback(std)
-    if pn is None or sn is None:
+    pe, se = empties(prim), empties(std)
+    if "" not in pe or "" not in se:
         raise AnalysisError("C15.R6: empty-value fall-back not found in PrimitiveNode.bind / StandardNode.bind")
-    p_bytes = isinstance(pv, ast.IfExp) and "bytes" in unparse(pv.test) and isinstance(pv.body, ast.Constant) and pv.body.value == b""
-    ctx.ob("PrimitiveNode.bind: empty fall-back is b'' for bytes fields, '' otherwise", p_bytes, at=prim, node=pn,
-           msg="a bytes field would receive a str")
-    s_bytes = isinstance(sv, ast.IfExp) and "bytes" in unparse(sv.test) and any(
-        isinstance(x, ast.Constant) and x.value == b"" for x in (sv.body, sv.orelse))
+    for fi, e, what in ((prim, pe, "PrimitiveNode"), (std, se, "StandardNode")):
+        for k in ("",):
+            ctx.ob(f"{what}.bind: the empty fall-back applies only to a missing value of a non-nillable element", any(t == "_isNone" and pol for t, pol in e[k]) and any("nillable" in t and not pol for t, pol in e[k]), at=fi,
+                   construct=f"{what} fallback guard", msg="fall-back replaces real values or nil elements")
+    p_bytes = b"" in pe and any("bytes" in t and pol for t, pol in pe[b""]) and any("bytes" in t and not pol for t, pol in pe[""])
+    ctx.ob("PrimitiveNode.bind: empty fall-back is b'' for bytes fields, '' otherwise", p_bytes, at=prim, construct="primitive bytes fallback", msg="a bytes field would receive a str")
+    s_bytes = b"" in se and any("bytes" in t and pol for t, pol in se[b""]) and any("bytes" in t and not pol for t, pol in se[""])
     # the value is then handed to datatype.wrapper (a bytes subclass for hexBinary/base64Binary)
     wraps = any(isinstance(c.func, ast.Attribute) and c.func.attr == "wrapper" for c in calls_in(std.node))
-    ctx.ob("StandardNode.bind: empty fall-back agrees with its sibling (b'' when the datatype is bytes)", s_bytes or not wraps, at=std, node=sn,
+    ctx.ob("StandardNode.bind: empty fall-back agrees with its sibling (b'' when the datatype is bytes)", s_bytes or not wraps, at=std, construct="standard bytes fallback",
            msg="the fall-back is '' even when datatype.type is bytes and is then passed to datatype.wrapper (a bytes subclass): "
                "<v xsi:type=\"xs:hexBinary\"/> raises TypeError: string argument without an encoding")
 
